@@ -278,21 +278,30 @@ def check_c(ctx, facts):
     EXIST, FRESH = Obj('sim'), None
     for scen, val in (('fresh system', FRESH), ('system already has a simulator', EXIST)):
         atoms = {'%s.simulator' % sysn: val, 'self.sys.simulator': val}
-        try:
-            fs = feasible(fn_paths(ini), atoms, single_defs(ini))
-        except Unknown as e:
-            ctx.error('C04.c', 'Simulator.__init__ guard not evaluable: %s' % e)
-            return
+        fs = feasible(fn_paths(ini), atoms, single_defs(ini), unknown='both')
+        okc = True
         for evs, ex in fs:
+            if ex == 'raise':
+                continue
             cs = calls_in_path(evs)
             srt = [i for i, x in enumerate(cs) if is_call_to(x, 'topologicalSort')]
             prp = [i for i, x in enumerate(cs) if is_call_to(x, 'propagateAll')]
             if val is FRESH:
-                if len(srt) >= 1 and len(prp) >= 1 and min(srt) < min(prp):
-                    ctx.ok('C04.c', 'construct:%s' % scen, 'topologicalSort() then propagateAll()')
-                else:
-                    ctx.violation('C04.c', 'construct:%s' % scen, 'a new simulator does not sort and then settle the netlist (sort calls=%d, propagateAll calls=%d)'
-                                  % (len(srt), len(prp)), '%s:Simulator.__init__' % SIM, witness=dict(schedule='blocks instantiated consumer-first; read outputs before any clk()'))
+                if not (len(srt) >= 1 and len(prp) >= 1 and min(srt) < min(prp)):
+                    conds = [(norm(e.node), e.val) for e in evs if e.kind == 'branch']
+                    # skipping the settle pass is harmless only when there is nothing to settle
+                    harmless = not prp and srt and all('propagatables' in c for c, v in conds if 'simulator' not in c) and any('propagatables' in c for c, v in conds)
+                    if not harmless:
+                        okc = False
+                        ctx.violation('C04.c', 'construct:%s' % scen, 'a new simulator can leave the netlist unsettled (under %s): sort calls=%d, propagateAll calls=%d'
+                                      % ([c for c in conds if 'simulator' not in c[0]][-2:], len(srt), len(prp)), '%s:Simulator.__init__' % SIM,
+                                      witness=dict(schedule='read combinational outputs after getSimulator() and before any clk()'))
+                        break
+        if val is FRESH and okc:
+            ctx.ok('C04.c', 'construct:%s' % scen, 'topologicalSort() then propagateAll() on every feasible path')
+        for evs, ex in []:
+            if val is FRESH:
+                pass
             else:
                 # existing simulator: __new__ must have re-sorted
                 pass
@@ -888,6 +897,9 @@ def run(ctx, sm, facts):
     check_b(ctx, facts)
     check_c(ctx, facts)
     check_f(ctx, facts, ctx.tier, ctx.seed)
+    from .c05 import check_b as c05_check_b
+    ctx.rule('C05.b', 'edge-routine ordering rules (every edge is followed by a complete, unconditional propagate pass): see C05')
+    c05_check_b(ctx, facts)
     nerr = len(ctx.errors)
     check_d(ctx, facts)
     if not any(v['rule'] == 'C04.f' for v in ctx.violations) and not any(e.startswith('C04.f') for e in ctx.errors):
